@@ -52,7 +52,7 @@ Atom(s, cx) ==
     [] k \in 11..13 -> IF cx.self < cx.n THEN Ref(RuleName(cx.self + 1 + Pick(s, 12, cx.n - cx.self))) ELSE ConsAtom(s, cx)
     [] k = 14 -> Nil
     [] k = 15 -> IF cx.acts THEN Act(0) ELSE ConsAtom(s, cx)
-    [] k = 16 -> IF cx.preds THEN Pred(Pick(s, 13, 3) # 0) ELSE ConsAtom(s, cx)
+    [] k = 16 -> IF cx.preds THEN (IF Pick(s, 13, 4) = 3 THEN Chg(Pick(s, 17, 3)) ELSE Pred(Pick(s, 13, 3) # 0)) ELSE ConsAtom(s, cx)   \* &{..} or a state change !{..}
     [] k = 17 -> IF cx.capnull /\ Pick(s, 15, 2) = 0
                  THEN SeqE(<<Cap(IF Pick(s, 16, 2) = 0 THEN Opt(ConsAtom(s, cx)) ELSE Star(ConsAtom(s, cx))), Act(0)>>)   \* a capture that may be empty, then an action
                  ELSE SeqE(<<ConsAtom(s, cx), Ref(RuleName(1 + Pick(s, 14, cx.n)))>>)   \* guarded (possibly recursive) call
